@@ -274,3 +274,26 @@ reg("C11", level="other", engine="E-TAB", design_ref="DESIGN.md §5 C11 (T-MINV)
     level_text="Other (partial, bounded): exhaustive over the stated family; not a proof for all ranges.",
     level_note="Trusted: rustc MIR, interpreter/models, the reference satisfaction model (same cut + gate semantics as C03/C07).",
     exhaustive=True, assumptions=["bounded family of ranges and probe versions"])
+
+# ---- rules added in round 7 (DESIGN §11.7, seventh round)
+from . import REGISTRY  # noqa: E402
+
+_INV = (" The premise of these tables — every BoundSet in circulation is a non-empty (Lower, Upper) pair — is itself checked: "
+        "INV-CONSTRUCT runs every function whose MIR builds a BoundSet aggregate (other than the validating constructor, tabled "
+        "by T-NEW) over all abstract inputs of its parameter types; INV-PARSED requires every row of the desugaring and hyphen "
+        "tables to return a set that went through the validating constructor or is ordered by construction (engine/invariant.py).")
+for _pid in ("C07", "C08", "C09", "C10", "C15"):
+    REGISTRY[_pid]["explanation"] += _INV
+REGISTRY["C03"]["explanation"] += (" The second public entry point Version::satisfies is interpreted with Range::satisfies stubbed "
+                                   "(one call with (range, self), answer returned unchanged) or else tabled like Range::satisfies "
+                                   "(E-VERSION-SATISFIES / R-SAT-VERSION).")
+REGISTRY["C05"]["explanation"] += (" `verify(pred)` nodes are compiled too when the predicate asks only starts_with / ends_with / "
+                                   "contains / is_empty questions about the matched text (a Boolean combination of regular "
+                                   "languages, engine/verifyre.py).")
+for _pid in ("C04", "C12"):
+    REGISTRY[_pid]["explanation"] += (" T-CLASSIFY covers every `map` node of the version grammar whose function returns an "
+                                      "Identifier; with several such functions a misclassification counts only if a parseable "
+                                      "version text brings a text of that class to the node (tracing PEG evaluation on words).")
+for _pid in ("C12", "C18"):
+    REGISTRY[_pid]["explanation"] += (" When Display computes on the numbers it prints, a witness search on concrete values "
+                                      "(including values beyond 2^32 and 10^16) runs (T-DISPLAY-V-WITNESS).")
